@@ -22,7 +22,7 @@ RULE = ('Model-based histories over 1..3 filterbank objects: Hypothesis draws (n
 ASSUMPTIONS = ['chunks are whole multiples of num_taps*num_branches samples (the property\'s admissible sizes)',
                'reference DFT by explicit matrix product in complex128', 'comparison tolerance 1e-10 relative to the largest reference magnitude']
 REQUIRED_CLASSES = ['caller_overwrites_chunk_buffer', 'cache_keyword_omitted', 'non_contiguous_input', 'readonly_input', 'dtype=real', 'dtype=complex', 'dtype=int', 'chunks>=2', 'objects>=2', 'uncached_interleaved',
-                    'odd_branches', 'enumerated', 'long_call', 'huge_call', 'forked_object']
+                    'odd_branches', 'enumerated', 'long_call', 'huge_call', 'forked_object', 'estimate_between_chunks', 'estimate_before_first_chunk']
 
 WINDOWS = ['hamming', 'hann', 'boxcar', 'blackman']
 
@@ -35,7 +35,10 @@ def strategy(tier):
                                   # memory layout of the chunk handed over (same values)
                                   'layout': st.sampled_from(['contig'] * 3 + ['strided', 'part_of_complex', 'reversed', 'readonly']),
                                   # replace object (obj+1) by a copy of this one before feeding: both continue independently
-                                  'fork': st.sampled_from([None] * 5 + ['copy', 'deepcopy'])})
+                                  'fork': st.sampled_from([None] * 5 + ['copy', 'deepcopy']),
+                                  # ask the object for its channelised-noise estimate first (as a backend does lazily):
+                                  # a read-only side computation that must not disturb the stream, at its start or mid-way
+                                  'estimate': st.sampled_from([False] * 5 + [True])})
     return st.fixed_dictionaries({
         'taps': st.integers(1, 8),
         'branches': st.one_of(st.sampled_from([2, 4, 8, 16, 32, 64]), st.sampled_from([3, 5, 6, 7, 9, 10, 12])),
@@ -212,6 +215,11 @@ def run_case(case, ctx):
                 streams[k] = streams[k][:0]
                 emitted[k] = 0
                 obs.cls('with_reset')
+            if f.get('estimate'):
+                ok, est = core.call(obs, 'estimate_channelized_stds', pfb.estimate_channelized_stds, factor=T + 9, seed=3)
+                obs.cls('estimate_between_chunks' if chunks[k] else 'estimate_before_first_chunk')
+                if ok and (np.asarray(est).shape != (2,) or not np.all(np.isfinite(np.asarray(est, dtype=float)))):
+                    obs.fail('estimate_channelized_stds_result', repr(est)[:100])
             x = make_input(f['w'] * T * B, dtype, rs)
             layout = f.get('layout', 'contig')
             if layout != 'contig':
